@@ -6,6 +6,8 @@
  * world.txt:   N <npkgs>
  *              P <idx> <name> <ver> <untracked> <selfskip> <ndeps> <dep idx>...
  *              F <invocation index> <fault kind>
+ *              R 1          export files are real gc export data (compiled by $VERIF_COMPILE from
+ *                           `package pN; const Ident = "<build identity>"`), kept in $VERIF_STUB_STORE
  * stub.log:    one line per invocation, tab separated key=value (see c20world.ParseLog)
  * stub.count:  one byte appended per invocation (its size is the invocation counter)
  */
@@ -16,6 +18,7 @@
 #include <sys/stat.h>
 #include <fcntl.h>
 #include <stdint.h>
+#include <sys/wait.h>
 
 #define MAXP 16
 struct pkg { char name[64]; int ver; int untracked; int selfskip; int ndeps; int deps[MAXP]; };
@@ -24,6 +27,40 @@ static int NP = 0;
 static char root[1024];
 static char outbuf[1 << 16], logprinted[1 << 16];
 static int outlen = 0, lplen = 0;
+static int real_mode = 0, export_only = 0;
+
+/* real export data for a build identity: taken from the store shared by all workers of a
+ * check, or compiled now */
+static int make_real(int i, const char *st, const char *f) {
+    const char *store = getenv("VERIF_STUB_STORE"), *comp = getenv("VERIF_COMPILE");
+    if (!store || !comp) return -1;
+    char sf[1500], tmp[1600], src[1600];
+    const char *base = strrchr(f, '/'); base = base ? base + 1 : f;
+    snprintf(sf, sizeof sf, "%s/%s", store, base);
+    if (link(sf, f) == 0) return 0;
+    struct stat sb;
+    if (stat(f, &sb) == 0) return 0;
+    snprintf(tmp, sizeof tmp, "%s.tmp%d", sf, (int)getpid());
+    snprintf(src, sizeof src, "%s.tmp%d.go", sf, (int)getpid());
+    const char *pn = strrchr(P[i].name, '/'); pn = pn ? pn + 1 : P[i].name;
+    FILE *s = fopen(src, "w");
+    if (!s) return -1;
+    fprintf(s, "package %s\n\nconst Ident = \"%s\"\n", pn, st);
+    fclose(s);
+    pid_t pid = fork();
+    if (pid == 0) {
+        int dn = open("/dev/null", O_WRONLY);
+        if (dn >= 0) { dup2(dn, 1); dup2(dn, 2); }
+        execl(comp, comp, "-p", P[i].name, "-o", tmp, src, (char *)0);
+        _exit(127);
+    }
+    int status = 0;
+    if (pid < 0 || waitpid(pid, &status, 0) < 0 || !WIFEXITED(status) || WEXITSTATUS(status) != 0) { unlink(src); unlink(tmp); return -1; }
+    unlink(src);
+    if (rename(tmp, sf) != 0) { unlink(tmp); return -1; }
+    if (link(sf, f) != 0 && stat(f, &sb) != 0) return -1;
+    return 0;
+}
 
 static void state_id(int i, char *dst, size_t n) {
     size_t k;
@@ -54,7 +91,9 @@ static void emit(int i, int create) {
     file_of(st, f, sizeof f);
     if (create) {
         struct stat sb;
-        if (stat(f, &sb) != 0) {
+        if (stat(f, &sb) != 0 && real_mode) {
+            if (make_real(i, st, f) != 0) { fprintf(stderr, "stubgo: cannot build real export data for %s\n", st); exit(3); }
+        } else if (stat(f, &sb) != 0) {
             char tmp[1500];
             snprintf(tmp, sizeof tmp, "%s.tmp%d", f, (int)getpid());
             int fd = open(tmp, O_WRONLY | O_CREAT | O_TRUNC, 0644);
@@ -63,10 +102,14 @@ static void emit(int i, int create) {
     } else {
         strncat(f, ".missing", sizeof f - strlen(f) - 1);
     }
-    outlen += snprintf(outbuf + outlen, sizeof outbuf - outlen, "%s\t%s\t[", P[i].name, f);
-    for (int j = 0; j < P[i].ndeps; j++)
-        outlen += snprintf(outbuf + outlen, sizeof outbuf - outlen, "%s%s", j ? " " : "", P[P[i].deps[j]].name);
-    outlen += snprintf(outbuf + outlen, sizeof outbuf - outlen, "]\n");
+    if (export_only) { /* go list -f={{.Export}} */
+        outlen += snprintf(outbuf + outlen, sizeof outbuf - outlen, "%s\n", f);
+    } else {
+        outlen += snprintf(outbuf + outlen, sizeof outbuf - outlen, "%s\t%s\t[", P[i].name, f);
+        for (int j = 0; j < P[i].ndeps; j++)
+            outlen += snprintf(outbuf + outlen, sizeof outbuf - outlen, "%s%s", j ? " " : "", P[P[i].deps[j]].name);
+        outlen += snprintf(outbuf + outlen, sizeof outbuf - outlen, "]\n");
+    }
     lplen += snprintf(logprinted + lplen, sizeof logprinted - lplen, "%s%s|%s|%s", lplen ? ";" : "", P[i].name, f, st);
 }
 
@@ -92,6 +135,8 @@ int main(int argc, char **argv) {
             char *q = line + off;
             for (int j = 0; j < nd && j < MAXP; j++) { p->deps[j] = (int)strtol(q, &q, 10); }
             if (idx + 1 > NP) NP = idx + 1;
+        } else if (line[0] == 'R') {
+            real_mode = 1;
         } else if (line[0] == 'F') {
             long k; char kind[64];
             if (sscanf(line, "F %ld %63s", &k, kind) == 2 && k == n) strcpy(fault, kind);
@@ -102,6 +147,7 @@ int main(int argc, char **argv) {
     const char *errmsg = "";
     char errbuf[256];
     int k = 0;
+    for (int a = 1; a < argc; a++) if (strcmp(argv[a], "-f={{.Export}}") == 0) export_only = 1;
     for (int a = 1; a < argc; a++) {
         if (strcmp(argv[a], "list") == 0 || argv[a][0] == '-') continue;
         int i = -1;
